@@ -224,27 +224,30 @@ func c15Run(c *c15Case) (exp, act, sig string, ok bool) {
 		if err != nil {
 			return "", "", "", true
 		}
-		got, qerr := c15Query(p, "findall(V, ph(V), X) .")
 		if nph == 0 {
 			return "", "", "", true
 		}
+		// integers: exactly the values; strings: exactly what the literal standing next to the placeholder denotes
+		got, qerr := c15Query(p, "findall(K-V, (ph(K, V), integer(V)), X) .")
 		if qerr != nil {
-			return "ph/1 holds the placeholder values", qerr.Error(), "placeholder: a text of several clauses: values not loaded", false
+			return "ph/2 holds the placeholder values", qerr.Error(), "placeholder: a text of several clauses: values not loaded", false
 		}
 		var want []ref.Term
-		for i := 0; i < nph; i++ {
-			if i%2 == 0 {
-				want = append(want, ref.Int(int64(i)))
-			} else {
-				var cs []ref.Term
-				for _, r := range fmt.Sprintf("s%d", i) {
-					cs = append(cs, ref.Atom(string(r)))
-				}
-				want = append(want, ref.List(cs...))
-			}
+		for i := 0; i < nph; i += 2 {
+			want = append(want, ref.C("-", ref.Int(int64(i)), ref.Int(int64(i))))
 		}
 		if !c15Same(got, ref.List(want...)) {
 			return ref.Canon(ref.List(want...), ref.NewNamer()), ref.Canon(got, ref.NewNamer()), "placeholder: a text of several clauses: values differ", false
+		}
+		if nph > 1 {
+			d1, e1 := c15Query(p, "findall(K-V, (ph(K, V), \\+ integer(V)), X) .")
+			d2, e2 := c15Query(p, "findall(K-V, lit(K, V), X) .")
+			if e1 != nil || e2 != nil {
+				return "ph/2 and lit/2 can be listed", fmt.Sprint(e1, e2), "placeholder: a text of several clauses: values not loaded", false
+			}
+			if !c15Same(d1, d2) {
+				return "the literals: " + ref.Canon(d2, ref.NewNamer()), "the placeholders: " + ref.Canon(d1, ref.NewNamer()), "placeholder: a string placeholder differs from the literal standing next to it in the text", false
+			}
 		}
 		return "", "", "", true
 	case "scan":
@@ -563,12 +566,27 @@ func c15Work(w *h.W) {
 		}
 	}
 	// texts of several items with the placeholders distributed over them in every way
-	items := []string{"ph(?).", "a(1).", ":- true.", "% c\n", "ph(?) :- true.", ":- dynamic(d/1).", "ph(?). ", ""}
+	items := []string{"ph(?).", "a(1).", ":- true.", "% c\n", "ph(?) :- true.", ":- dynamic(d/1).", "ph(?). ", "",
+		":- set_prolog_flag(double_quotes, atom).", ":- set_prolog_flag(double_quotes, codes)."}
 	for l := 0; l <= w.Pick(3, 4); l++ {
 		seqs(l, len(items), func(idx []int) bool {
 			text := ""
+			k := 0
 			for _, i := range idx {
-				text += items[i] + " "
+				it := items[i]
+				if strings.Contains(it, "ph(?)") {
+					// the k-th placeholder; next to a string placeholder stands the literal it must behave like
+					it = strings.Replace(it, "ph(?)", fmt.Sprintf("ph(%d, ?)", k), 1)
+					if k%2 == 1 {
+						it += fmt.Sprintf(" lit(%d, \"s%d\").", k, k)
+					}
+					k++
+				}
+				text += it + " "
+			}
+			if strings.Count(text, "ph(")+strings.Count(text, "a(1)") > 1 {
+				// clauses of one predicate separated by other items: declared, so that the load itself is valid
+				text = ":- discontiguous(ph/2). :- discontiguous(a/1). :- discontiguous(lit/2). " + text
 			}
 			for na := 0; na <= 3; na++ {
 				if !w.Mine() {
@@ -601,7 +619,7 @@ func c15Replay(b []byte) (string, string, bool) {
 func init() {
 	h.Register(&h.Check{
 		ID: "C15",
-		Rule: "placeholders: ALL strings of length <= L over a 26-rune alphabet of syntax-significant characters (quotes, backslash, '.', ',', brackets, '|', '%', '?', ':', '-', space, newline, NUL, multi-byte, U+10FFFF, digit) plus strings that spell Prolog syntax, x double_quotes {codes, chars, atom, default} x 6 positions (top level, argument, list element, operand of a prefix operator, twice in one term, shared through a variable); integers of every Go width at their extremes, floats incl. +-max, denormal, -0.0, float32, nested slices/arrays; unsupported Go kinds must be rejected; every (placeholder count, argument count) pair in {0..3}^2 through Query and Exec; every text of <= 3 (4) items out of 8 (facts and rules with a placeholder, plain clauses, directives, comments, nothing) x 0..3 arguments through Exec: an error iff the counts differ, and the loaded facts hold exactly the values. Scan: 61 answer values (integers around every width boundary, floats around the float32 range, atoms, lists proper/nested/mixed, partial and improper lists, compounds, unbound, and the same lists as answers of append/findall/sort/=../length, atom_chars/atom_codes and double-quoted strings) x 16 destination types x 3 carriers (struct, map, map with a second list-valued variable). Distinct = case.",
+		Rule: "placeholders: ALL strings of length <= L over a 26-rune alphabet of syntax-significant characters (quotes, backslash, '.', ',', brackets, '|', '%', '?', ':', '-', space, newline, NUL, multi-byte, U+10FFFF, digit) plus strings that spell Prolog syntax, x double_quotes {codes, chars, atom, default} x 6 positions (top level, argument, list element, operand of a prefix operator, twice in one term, shared through a variable); integers of every Go width at their extremes, floats incl. +-max, denormal, -0.0, float32, nested slices/arrays; unsupported Go kinds must be rejected; every (placeholder count, argument count) pair in {0..3}^2 through Query and Exec; every text of <= 3 (4) items out of 10 (facts and rules with a placeholder - a string placeholder next to the literal it must equal -, plain clauses, directives incl. ones that change double_quotes, comments, nothing) x 0..3 arguments through Exec: an error iff the counts differ, and the loaded facts hold exactly the values. Scan: 61 answer values (integers around every width boundary, floats around the float32 range, atoms, lists proper/nested/mixed, partial and improper lists, compounds, unbound, and the same lists as answers of append/findall/sort/=../length, atom_chars/atom_codes and double-quoted strings) x 16 destination types x 3 carriers (struct, map, map with a second list-valued variable). Distinct = case.",
 		Explanation: "state = one (Go value, context) pair; transition = one Query with placeholders (the term bound to X is captured structurally and must equal the term the literal with exactly those runes denotes, so nothing in the string can have been read as syntax), or one Scan (the stored Go value must represent the answer exactly, or Scan returns an error)",
 		Assumptions: []string{"a float32 destination may hold the nearest float32 of a value that is not representable; overflow to infinity or flush to zero must be an error", "a string destination may hold the text of any term"},
 		Work:        c15Work,
